@@ -157,7 +157,14 @@ def _run(case: dict[str, Any], with_program: bool,
                 elif op == 'store':
                     mode_ = [b'FLAGS', b'+FLAGS', b'-FLAGS', b'+FLAGS.SILENT'
                              ][d % 4]
-                    fl = b' '.join(flags_from_mask(1 + a % 31))
+                    # any flag list: system flags, none at all, only a
+                    # keyword the mailbox does not offer
+                    fl = b' '.join(flags_from_mask(a % 32))
+                    if b % 4 == 0:
+                        fl = [b'', b'$Forwarded', b'$kw \\Seen', b'\\Recent'
+                              ][(b // 4) % 4]
+                    if not fl or fl == b'$Forwarded':
+                        out.label('store-without-permanent-flag')
                     res = e.command(pre + b'STORE ' + ss + b' ' + mode_
                                     + b' (' + fl + b')')
                     expect_no = True
